@@ -63,12 +63,17 @@ def mixed_subsets(tier: str):
 
 
 def prior_keys(n: int) -> tuple[str, ...]:
-    return ("uniform", "ramp", "g0")
+    # "zero": the last state is never prepared (prior exactly 0) - added after seeded change C11-4, which dropped zero-prior states
+    # (harmless for discrimination, wrong for exclusion, where such a state can always be excluded: the value must be 0)
+    return ("uniform", "ramp", "g0", "zero") if n >= 3 else ("uniform", "ramp", "g0")
 
 
 def weights(n: int, key: str) -> np.ndarray:
     if key in ("none", "uniform"):
         return np.ones(n) / n
+    if key == "zero":
+        w = np.arange(n - 1, 0, -1, dtype=float)
+        return np.concatenate([w / w.sum(), [0.0]])
     if key == "ones":
         return np.ones(n)
     if n <= 5:
